@@ -91,9 +91,11 @@ def compile_ir(src, out_ll, incdir, defines=(), extra=()):
 
 
 def compile_native(src, out_bin, incdir, defines=(), extra_srcs=(), extra=()):
-    """native replay binary: the SAME harness TU, g++ -O1 (the shipped library is -O2; the semantics are the source's)"""
+    """native replay binary: the SAME harness TU compiled to machine code (clang++ -O1)"""
     rt = os.path.join(VERIF, 'engine/rt/verif_native.cc')
-    cmd = ['g++', '-std=c++17', '-O1', '-fno-fast-math', '-w', '-rdynamic'] + includes(incdir) + ['-D%s' % d for d in defines] + \
+    # clang++ (same front end as the IR): the evaluation order of nondet calls in function arguments is unspecified in C++
+    # (g++ goes right-to-left, clang left-to-right) and the replay consumes inputs in call order
+    cmd = ['clang++-14', '-std=c++17', '-O1', '-ffp-contract=on', '-w', '-rdynamic'] + includes(incdir) + ['-D%s' % d for d in defines] + \
         list(extra) + [src, rt] + list(extra_srcs) + ['-o', out_bin, '-ldl', '-Wl,--unresolved-symbols=ignore-all']
     r = subprocess.run(cmd, capture_output=True, text=True)
     if r.returncode != 0:
